@@ -10,7 +10,7 @@ func init() {
 	register("fuzz_generate", suiteFuzzGenerate)
 }
 
-var fuzzLines = []string{"##!> define x {{x}}\n{{x}}", "##!> define x a{{y}}\n##!> define y b{{x}}\nuse{{x}}", "##!> define a {{b}}\n##!> define b {{c}}\n##!> define c z\n{{a}}{{b}}", "##! +s\nfoo.bar", "##! ^x\nabc", "##!> cmdline\nx\n##!<", "##!> cmdline 1\nx\n##!<"}
+var fuzzLines = []string{"##! old value: ##!> define sep [/x]\n##!> define sep [:;]\npath{{sep}}to", "##!> define k v1\n##! was ##!> define k v0\n{{k}}", "##!> define x {{x}}\n{{x}}", "##!> define x a{{y}}\n##!> define y b{{x}}\nuse{{x}}", "##!> define a {{b}}\n##!> define b {{c}}\n##!> define c z\n{{a}}{{b}}", "##! +s\nfoo.bar", "##! ^x\nabc", "##!> cmdline\nx\n##!<", "##!> cmdline 1\nx\n##!<"}
 
 var fuzzTokens = []string{"##!", "##!>", "##!<", "##!=>", "##!=<", "##!+", "##!^", "##!$", " assemble", " cmdline", " unix", " windows", " include", " include-except", " define",
 	" x", " inc", " --", " a", " b", "i", "s", "(", ")", "(?:", "(?i:", "(?s:", "\\(?i:x", "\\(", "\\)", "|", "[", "]", "[^", "\\", "\\\\", "\"", "{", "}", "{{", "}}", "{{x}}", "*", "+", "?", ".",
@@ -60,6 +60,16 @@ func suiteFuzzGenerate(env *Env, res *Result) {
 			f.hasInc = true
 			f.inc = f.text
 			f.text = r.Pick([]string{"##!> include fz\n", "a\n##!> include fz\nb\n", "##!> cmdline unix\n##!> include fz\n##!<\n", "##!> include-except fz fz\n", "##!> include fz -- a b\n"})
+			if r.Chance(1, 12) {
+				// an include file that includes itself (directly, or through a second file): no cycle
+				// detection exists; the run must still end promptly and loudly
+				if r.Chance(1, 2) {
+					f.inc += "##!> include fz\n"
+				} else {
+					f.inc += "##!> include fz2\n"
+					f.tree["regex-assembly/include/fz2.ra"] = "x\n##!> include fz\n"
+				}
+			}
 			f.tree["regex-assembly/include/fz.ra"] = f.inc
 		}
 		runs[i] = f
@@ -90,7 +100,7 @@ func suiteFuzzGenerate(env *Env, res *Result) {
 		}
 		fs := "."
 		if f.hasInc {
-			fs = "i:" + hx("fz.ra") + ":" + hx(f.inc)
+			fs = fsArgOf(f.tree)
 		}
 		cls := "interesting"
 		if cl == "ok" && f.res.Stdout == "" {
